@@ -399,7 +399,7 @@ def saved_member(self, out_state, name, v0):
             and implies(not is_method(v0) and not isinstance(v0, Savable), copied(dget(out_state, name), v0)))
 
 
-@contract('plumpy.persistence.Savable.save_members', props=['C19', 'C07'], ghost=['M', 'K'])
+@contract('plumpy.persistence.Savable.save_members', props=['C19', 'C07', 'C13'], ghost=['M', 'K'])
 def save_members(self, members, out_state, M=None, K=None):
     """every declared member is recorded (M: an arbitrary member name), nothing else of the saved state is touched
     (K: an arbitrary other key), and the object itself is not modified"""
